@@ -763,13 +763,25 @@ func (e *ConditionalExpr) Value(ctx *hcl.EvalContext) (cty.Value, hcl.Diagnostic
 	}
 
 	if resultType == cty.NilType {
+		mismatch := describeConditionalTypeMismatch(trueResult.Type(), falseResult.Type())
+		if trueResult.ContainsMarked() || falseResult.ContainsMarked() {
+			// The detailed description quotes object attribute names, which
+			// can be computed from marked values, so we describe the
+			// mismatch only in terms of the kinds of the two types.
+			trueName, falseName := trueResult.Type().FriendlyName(), falseResult.Type().FriendlyName()
+			if trueName != falseName {
+				mismatch = fmt.Sprintf("The 'true' value is %s, but the 'false' value is %s", trueName, falseName)
+			} else {
+				mismatch = "At least one attribute or element is not compatible across both the 'true' and the 'false' value"
+			}
+		}
 		return cty.DynamicVal, hcl.Diagnostics{
 			{
 				Severity: hcl.DiagError,
 				Summary:  "Inconsistent conditional result types",
 				Detail: fmt.Sprintf(
 					"The true and false result expressions must have consistent types. %s.",
-					describeConditionalTypeMismatch(trueResult.Type(), falseResult.Type()),
+					mismatch,
 				),
 				Subject:     hcl.RangeBetween(e.TrueResult.Range(), e.FalseResult.Range()).Ptr(),
 				Context:     &e.SrcRange,
@@ -904,6 +916,7 @@ func (e *ConditionalExpr) Value(ctx *hcl.EvalContext) (cty.Value, hcl.Diagnostic
 		diags = append(diags, trueDiags...)
 		if convs[0] != nil {
 			var err error
+			givenResult := trueResult
 			trueResult, err = convs[0](trueResult)
 			if err != nil {
 				// Unsafe conversion failed with the concrete result value
@@ -912,7 +925,7 @@ func (e *ConditionalExpr) Value(ctx *hcl.EvalContext) (cty.Value, hcl.Diagnostic
 					Summary:  "Inconsistent conditional result types",
 					Detail: fmt.Sprintf(
 						"The true result value has the wrong type: %s.",
-						err.Error(),
+						conditionalConversionError(givenResult, resultType, err),
 					),
 					Subject:     e.TrueResult.Range().Ptr(),
 					Context:     &e.SrcRange,
@@ -927,6 +940,7 @@ func (e *ConditionalExpr) Value(ctx *hcl.EvalContext) (cty.Value, hcl.Diagnostic
 		diags = append(diags, falseDiags...)
 		if convs[1] != nil {
 			var err error
+			givenResult := falseResult
 			falseResult, err = convs[1](falseResult)
 			if err != nil {
 				// Unsafe conversion failed with the concrete result value
@@ -935,7 +949,7 @@ func (e *ConditionalExpr) Value(ctx *hcl.EvalContext) (cty.Value, hcl.Diagnostic
 					Summary:  "Inconsistent conditional result types",
 					Detail: fmt.Sprintf(
 						"The false result value has the wrong type: %s.",
-						err.Error(),
+						conditionalConversionError(givenResult, resultType, err),
 					),
 					Subject:     e.FalseResult.Range().Ptr(),
 					Context:     &e.SrcRange,
@@ -947,6 +961,16 @@ func (e *ConditionalExpr) Value(ctx *hcl.EvalContext) (cty.Value, hcl.Diagnostic
 		}
 		return falseResult.WithMarks(resMarks...), diags
 	}
+}
+
+// conditionalConversionError returns the text of a failed conversion of a
+// conditional result, leaving out the details (which can quote attribute
+// names) when the value carries marks.
+func conditionalConversionError(val cty.Value, want cty.Type, err error) string {
+	if val.ContainsMarked() {
+		return fmt.Sprintf("%s required", want.FriendlyNameForConstraint())
+	}
+	return err.Error()
 }
 
 // describeConditionalTypeMismatch makes a best effort to describe the
